@@ -78,7 +78,24 @@ def run(ctl, A, sc):
             return args, kw
 
         async def main():
-            if mode == 'pair':
+            if mode == 'twofuncs':
+                async def g(*args, **kwargs):
+                    return await func(*args, **kwargs)
+                form = sc.get('form', 'options')
+                if form == 'options':
+                    deco = A.threadsafe_async_cache() if sc.get('variant') != 'none' else A.threadsafe_async_cache(cache=None)
+                    wf, wg = deco(func), deco(g)
+                elif form == 'bare':
+                    wf, wg = A.threadsafe_async_cache(func), A.threadsafe_async_cache(g)
+                else:
+                    wf, wg = A.threadsafe_async_cache(func, cache=None), A.threadsafe_async_cache(g, cache=None)
+                a1, k1 = conc_sig(sc['s1'], 0)
+                for j, w in enumerate([wf, wg, wf, wg], 1):
+                    cur[0] = j
+                    v = await w(*a1, **k1)
+                    ctl.log('CallEnd', j=j, inv=getattr(v, 'j', -1))
+                ctl.log('PairEnd')
+            elif mode == 'pair':
                 a1, k1 = conc_sig(sc['s1'], 0)
                 a2, k2 = conc_sig(sc['s2'], 1)
                 if sc.get('concurrent'):
